@@ -136,6 +136,8 @@ def mon_class(line):
         return "C03"
     if line.startswith("C14"):
         return "C14"
+    if line.startswith("C04"):
+        return "C04"
     return None
 
 
